@@ -12,6 +12,7 @@ mod ledger;
 mod micro;
 mod pair;
 mod replay;
+mod shapes;
 mod sweep;
 mod trace;
 
@@ -116,6 +117,20 @@ fn main() {
                 "callback_kinds": st.cb_kinds, "failing_sites": st.failing_sites,
                 "injected_runs": st.injected_runs, "extra_positions": st.extra_positions,
                 "drift_callbacks": st.drift_cb, "drift_outcome": st.drift_out, "drift_survivors": st.drift_post, "drift_asked": st.drift_asked});
+            let out = arg(&args, "--out").expect("--out");
+            std::fs::write(out, serde_json::to_string_pretty(&j).unwrap()).expect("write report");
+        }
+        "shapes" => {
+            let table = replay::Table::load(arg(&args, "--table").expect("--table"));
+            let set_mode = arg(&args, "--mode").unwrap_or("map") == "set";
+            if let Some(p) = arg(&args, "--progress") {
+                let f = std::fs::File::create(p).expect("progress file");
+                PROGRESS.with(|x| *x.borrow_mut() = Some(f));
+            }
+            let mut rep = replay::Report::default();
+            let per = shapes::run_shapes(&table, set_mode, &mut rep);
+            let mut j = rep.to_json();
+            j["shapes"] = serde_json::json!(per);
             let out = arg(&args, "--out").expect("--out");
             std::fs::write(out, serde_json::to_string_pretty(&j).unwrap()).expect("write report");
         }
